@@ -80,6 +80,13 @@ def grammar_case(fggs, rng, tier, seed, index, viols, obs):
     typed = index % 4 == 1
     forced = [rng.choice(['start-arity', 'inf-weight', 'zero-weight', 'edgeless-internal', 'edgeless-ext', 'nullary', 'edge-twice', 'many-rules', 'nt-without-rules', 'plain'])]
     spec = G.gen_spec(rng, cls if not typed else 'nonrec', forced, allow_inf=True, typed=typed)
+    unused = not typed and (index // 3) % 4 == 1
+    if unused:
+        # labels that are declared (and, for the terminal, interpreted) but occur in no rule
+        lab = rng.choice(sorted(spec['domains']))
+        spec['terminals']['t_unused'] = [lab]
+        spec['weights']['t_unused'] = [0.5 + i for i in range(spec['domains'][lab])]
+        spec['nonterminals']['N_unused'] = [lab] if rng.random() < 0.5 else []
     idmode = ['explicit', 'implicit', 'mixed'][(index // 4) % 3]
     default64 = (index // 12) % 2 == 0
     wdtype = torch.float32 if index % 5 == 2 else torch.float64
@@ -316,7 +323,7 @@ def run_case(tier, seed, index, spec=None):
         return dict(cls='weights', features=['expand' if 'expand' in js else 'no-expand'], verdict='violated' if viols else 'held', violations=viols, obs=obs,
                     nontrivial=nontriv, key=C.hkey(js), sample=dict(weight_spec=js))
     sp, info_ = grammar_case(fggs, rng, tier, seed, index, viols, obs)
-    feats = sorted(G.features_of(sp)) + [f'ids-{info_["idmode"]}', f'domains-{info_["domains"]}', 'patterned' if info_['patterned'] else 'dense', 'default-' + info_['default_dtype']] + (['odd-ids'] if info_['odd_ids'] else [])
+    feats = sorted(G.features_of(sp)) + [f'ids-{info_["idmode"]}', f'domains-{info_["domains"]}', 'patterned' if info_['patterned'] else 'dense', 'default-' + info_['default_dtype']] + (['odd-ids'] if info_['odd_ids'] else []) + (['unused-labels'] if 't_unused' in sp['terminals'] else [])
     return dict(cls='grammar', features=feats, verdict='violated' if viols else 'held', violations=viols, obs=obs,
                 nontrivial=len(sp['rules']) >= 2 and info_['idmode'] != 'explicit', key=G.spec_key(sp) + info_['idmode'], sample=dict(spec=G.describe(sp), setup=info_))
 
@@ -326,7 +333,7 @@ def finalize(tot, tier, seed):
     for k in ('to_json_calls', 'from_json_calls', 'iso_checks', 'weights_compared', 'sum_product_compared', 'verbatim_checks', 'rejection_attempts', 'json_to_weights_calls'):
         if tot['obs'].get(k, 0) == 0:
             inc.append(f'{k} never observed')
-    for f in ('ids-explicit', 'ids-implicit', 'ids-mixed', 'domains-range', 'domains-finite', 'patterned', 'dense', 'inf-weight', 'start-arity', 'expand', 'odd-ids'):
+    for f in ('ids-explicit', 'ids-implicit', 'ids-mixed', 'domains-range', 'domains-finite', 'patterned', 'dense', 'inf-weight', 'start-arity', 'expand', 'odd-ids', 'unused-labels'):
         if tot['features'].get(f, 0) == 0:
             inc.append(f'feature {f} never generated')
     return {}, inc
